@@ -124,8 +124,8 @@ using namespace celma::prog_args::detail;
 
 // ---- abstract keys: short character (0 = none) over {x,y,z}, long word (length 0 = none, else 2..KLEN) over {a,b}
 struct AKey { char sh; size_t ln; char w[KLEN]; };
-static void mk_akey(AKey& k) { unsigned char cvin_s; size_t cvin_n; __CPROVER_assume(cvin_s <= 3 && (cvin_n == 0 || (2 <= cvin_n && cvin_n <= KLEN)) && (cvin_s != 0 || cvin_n != 0));
-  k.sh = cvin_s == 0 ? 0 : (char)('w' + cvin_s); k.ln = cvin_n; for (int i = 0; i < KLEN; ++i) { bool cvin_b; k.w[i] = cvin_b ? 'b' : 'a'; } }
+static void mk_akey(AKey& k) { unsigned char cvin_seq_s; size_t cvin_seq_n; __CPROVER_assume(cvin_seq_s <= 3 && (cvin_seq_n == 0 || (2 <= cvin_seq_n && cvin_seq_n <= KLEN)) && (cvin_seq_s != 0 || cvin_seq_n != 0));
+  k.sh = cvin_seq_s == 0 ? 0 : (char)('w' + cvin_seq_s); k.ln = cvin_seq_n; for (int i = 0; i < KLEN; ++i) { unsigned char cvin_seq_b; k.w[i] = (cvin_seq_b & 1) ? 'b' : 'a'; } }
 static bool same_long(const AKey& a, const AKey& b) { if (a.ln == 0 || a.ln != b.ln) return false; for (int i = 0; i < KLEN; ++i) if ((size_t)i < a.ln && a.w[i] != b.w[i]) return false; return true; }
 static bool same_short(const AKey& a, const AKey& b) { return a.sh != 0 && a.sh == b.sh; }
 static bool is_prefix(const AKey& p, const AKey& k) { if (p.ln == 0 || k.ln == 0 || p.ln > k.ln) return false; for (int i = 0; i < KLEN; ++i) if ((size_t)i < p.ln && p.w[i] != k.w[i]) return false; return true; }
@@ -198,18 +198,19 @@ void h_find() {
 #define NARGS_IN NARGS
   MKSTORE(ac, keys, cnt)
 #undef NARGS_IN
-  bool cvin_abbr; ac.mAbbrAllowed = cvin_abbr;
+  unsigned char cvin_abbr; ac.mAbbrAllowed = (cvin_abbr & 1) != 0;
   AKey q; mk_akey(q); __CPROVER_assume((q.sh != 0) != (q.ln != 0));   // a command-line key is a short or a long key
   if (q.ln == 1) q.ln = 2;
   ArgumentKey k('\0'); to_key(k, q);
   int exact = -1, nprefix = 0, pfx = -1;
   for (int i = 0; i < NARGS; ++i) if ((size_t)i < cnt) { if (same_short(keys[i], q) || same_long(keys[i], q)) exact = i; else if (q.ln != 0 && is_prefix(q, keys[i])) { ++nprefix; pfx = i; } }
-  bool ambiguous = exact < 0 && cvin_abbr && nprefix > 1;
+  bool abbr = ac.mAbbrAllowed;
+  bool ambiguous = exact < 0 && abbr && nprefix > 1;
   cv_may_throw = ambiguous; cv_thrown = 0;
   TypedArgBase* r = ac.findArg( k);
   __CPROVER_assert(!ambiguous, "a prefix of several long keys (and no exact key) is rejected as ambiguous");
   if (exact >= 0) __CPROVER_assert(r == handle(exact), "an exact key selects its own argument, regardless of the order in which arguments were defined");
-  else if (cvin_abbr && nprefix == 1) __CPROVER_assert(r == handle(pfx), "a proper prefix of exactly one long key selects that argument (abbreviations enabled)");
+  else if (abbr && nprefix == 1) __CPROVER_assert(r == handle(pfx), "a proper prefix of exactly one long key selects that argument (abbreviations enabled)");
   else __CPROVER_assert(r == 0, "unknown key (or abbreviation while abbreviations are disabled): no argument");
   CANARY; }
 }
@@ -248,7 +249,47 @@ def jobs(unit, tier, only=None):
 
 
 def replay(unit, job, o, inputs, scratch):
-    return {'outcome': 'unavailable', 'detail': 'no native replay for C05 (the counterexample keys are in counterexample_inputs)'}
+    kind = job.name[4:]
+    if kind not in ('add', 'find', 'key_ctor'):
+        return {'outcome': 'unavailable', 'detail': 'no native replay for this C05 harness (inputs are in counterexample_inputs)'}
+    klen = job.instance['long_key_length']
+    ss = [x for x in inputs.get('cvin_seq_s', []) if isinstance(x, int)]
+    ns = [x for x in inputs.get('cvin_seq_n', []) if isinstance(x, int)]
+    bs = [x for x in inputs.get('cvin_seq_b', []) if isinstance(x, int)]
+    keys = []
+    for i in range(min(len(ss), len(ns))):
+        w = ''.join('b' if (b & 1) else 'a' for b in bs[i * klen:(i + 1) * klen])[:max(0, min(ns[i], klen))]
+        keys.append('%s:%s' % (chr(ord('w') + ss[i]) if 0 < ss[i] <= 3 else '-', w or '-'))
+
+    def gi(k, d=0):
+        v = inputs.get(k, d)
+        return v if isinstance(v, int) else d
+    if kind == 'add':
+        cnt = min(gi('cnt'), len(keys) - 1)
+        args = ['add'] + ['key=' + k for k in keys[:cnt]] + ['key=' + keys[-1]]
+    elif kind == 'find':
+        cnt = min(gi('cnt'), len(keys) - 1)
+        q = keys[-1]
+        sh, ln = q.split(':')
+        if sh != '-' and ln != '-':
+            q = sh + ':-' if (gi('cvin_abbr') & 0) else q
+        args = ['find'] + ['key=' + k for k in keys[:cnt]] + ['q=' + q, 'abbr=%d' % (gi('cvin_abbr') & 1)]
+    else:
+        return {'outcome': 'unavailable', 'detail': 'key constructor counterexamples are replayed by hand (spec text in counterexample_inputs)'}
+    exe = scratch.path('replay', 'c05')
+    if not os.path.exists(exe):
+        S = core.SRC
+        cmd = ['g++', '-std=c++17', '-O0', '-g', '-w', '-fno-access-control', '-ffunction-sections', '-fdata-sections', '-I', S, os.path.join(core.VERIF, 'replay', 'c05.cpp')] + \
+              [os.path.join(S, 'library/prog_args/detail', f) for f in ('argument_key.cpp', 'argument_container.cpp', 'typed_arg_base.cpp', 'cardinality_max.cpp')] + ['-Wl,--gc-sections', '-o', exe]
+        rc, out, err, s = core.run(cmd, timeout=600, limit=False)
+        if rc != 0:
+            return {'outcome': 'unavailable', 'detail': 'replay build failed: ' + err[-800:]}
+    rc, out, err, s = core.run([exe] + args, timeout=60, limit=False)
+    return {'outcome': 'reproduced' if rc != 0 else 'not-reproduced', 'cmd': 'replay/c05.cpp: ' + ' '.join(args), 'args': {'argv': args}, 'output': (out + err).strip()[-1000:]}
+
+
+def replay_record(rec, scratch):
+    return {'outcome': 'unavailable', 'detail': 're-run the cmd recorded in native_replay.cmd with replay/c05.cpp (build line in cvlib/c05.py)'}
 
 
 def evidence_info(unit, tier):
